@@ -10,4 +10,17 @@ CHECKS = {
           'Inside these bounds the verdict is for every input; it says nothing about longer dictionaries or larger objects.',
   'note': 'trusted: cbmc, harness oracles (linear-scan reference lookup, arithmetic reference for node-id offset, min(len,size) byte-move model); dictionary assumed sorted, end-marked, no entry with index 0/sub 0',
  },
+ 'C07': {
+  'text': 'Bounded symbolic model checking of the real co_tmr.c in lock step with a reference timer model: every sequence of operation kinds over '
+          '{create, delete, tick, process} of length 4 (thorough 5) is enumerated by the driver, all arguments (start/cycle 0..7 ticks, deleted id) are symbolic; '
+          'pool sizes 1..3 (thorough ..4). Oracle after every step: callback counts, create/delete return values, id uniqueness, pool conservation. '
+          'Tick conversion: all frequencies 0..10000 Hz and frequency = q*unit (q<=15, thorough 63), 16-bit symbolic times. Longer histories, larger pools and 32-bit frequencies are outside the bound.',
+  'note': 'reference model re-arms a cyclic action when it is processed (as the code does); order of callbacks due on one tick unconstrained; timer driver = sw-cycle down-counter; pool blocks relinked onto separate objects by the CO_VERIF_TMR_POOL_HOOK hook; known finding F05 excluded by assumption and re-detected separately',
+ },
+ 'C08': {
+  'text': 'Same harness with interrupt preemption as solver-chosen flags: the tick service may run before every COTmrLock and after every COTmrUnlock of create/delete and between calls, '
+          'processing deferred arbitrarily (exact lock-step model, pool 2, 4 operations, thorough 5 / pool 3); plus a variant where the service also preempts inside COTmrProcess '
+          '(at most once per process call; oracle: memory safety, pool conservation, never after confirmed deletion, one-shot at most once, nothing lost after a final flush; pool 1, 3 operations).',
+  'note': 'preemption only at lock/unlock boundaries (statement-level preemption outside critical sections reduces to these because that code touches task-private data apart from the loop-head read of Elapsed); RTOS-task concurrency outside the claim',
+ },
 }
